@@ -9,30 +9,35 @@ SPEC = {
     "level": "proof",
     "level_text": (
         "Partial, with the full statement refuted by witnesses. Proved for all inputs: the transcription of "
-        "interpretOps evaluates exactly the tree aspGroup (any state, operands with side effects, provided truthiness is "
-        "state-independent); on every chain as written - prefix '-' and 'not' hoisted the way the parser does it, of any "
-        "length - that tree is the tree of the Python grammar (precedence climbing) whenever no operator swallows "
-        "(C16_ops_partial_with_prefix; corollaries: at most two operators, non-increasing precedences); the class "
-        "predicate 'swallows' is exact (iff the trees differ) on all chains of up to 4 binary operators and up to 3 with "
-        "prefixes; the integer operators + - * // % give Python's value except % on operands of different sign. The "
-        "full statement (every program on which both evaluate renders the same globals) is refuted by seven "
-        "machine-checked witnesses, one per root cause, each a listed known finding. The statement / builtin layer of "
-        "the two evaluators (Model/AspInterp.lean, Model/PyInterp.lean) is tied to the real interpreter and to python3 "
-        "only by correspondence; no whole-program agreement theorem is claimed."
+        "interpretOps evaluates exactly the tree aspGroup for any state and any operand evaluator (side effects included) "
+        "provided evaluating operands does not change the truthiness of values (Stable; satisfied e.g. when operands "
+        "leave the dict heap alone, stable_of_dicts_kept; necessary: C16_witness_lazy_recheck); on every chain as written "
+        "- prefix '-' and 'not' hoisted the way the parser does it, of any length - that tree is the tree of the Python "
+        "grammar (precedence climbing) whenever no operator swallows (C16_ops_partial_with_prefix; corollaries: at most two "
+        "operators, non-increasing precedences); the class predicate 'swallows' is exact (iff the trees differ) on all chains "
+        "of up to 4 binary operators and up to 3 with prefixes; the integer operators + - * // % give Python's value for ALL "
+        "operands whose result fits 64 bits (C16_intop_agrees; // and % after the two repairs are floorDiv/floorMod, proved "
+        "equal to Int.fdiv/Int.fmod), a zero divisor is an error on both sides; sorted/reversed (after the repair) change the "
+        "heap by exactly one new array (C16_sorted_copies, C16_reversed_copies). The full statement (every program on which "
+        "both evaluate renders the same globals) is refuted by six machine-checked witnesses at today's facts, one per root "
+        "cause, each a listed known finding; three further root causes were repaired in /repo and their witnesses are kept "
+        "as theorems about the model at the old fact values (C16_old_*). The statement / builtin layer of the two evaluators "
+        "(Model/AspInterp.lean, Model/PyInterp.lean) is tied to the real interpreter and to python3 only by correspondence; "
+        "no whole-program agreement theorem is claimed (program-level statements are single decided samples)."
     ),
     "technique": "Lean proofs about a transcription of interpretOps + differential three-way tie (asp, Lean asp model, Lean Python reference, python3) with repair-based classification of disagreements",
     "trusted": [
-        "go/ast extractor harness/extract/c16 (Precedence() table, Lazy(), operators map, pyInt.Operator cases, list +, Freeze, sorted/reversed, Constant(), interpretSlice)",
+        "go/ast extractor harness/extract/c16 (Precedence() table, Lazy(), operators map, pyInt.Operator cases incl. the bodies of the helpers floorDiv/floorMod, list +, Freeze, sorted/reversed, Constant(), interpretSlice, shape of interpretOps: comparison, recursion on ops[1:], hand-back to interpretOp)",
         "correspondence harness/cmd/c16: real asp (hook EvalForVerif, package files and subincluded files) vs Driver/C16.lean; python3 vs the Lean Python reference",
         "python3 (CPython on this machine) as the meaning of 'Python'; range/zip/enumerate/reversed/map/filter wrapped to return lists",
         "modelled, not verified: Model/AspEval.lean, AspInterp.lean (asp as it is: Go slices, constant pool, Go integer semantics), Model/PyRef.lean, PyInterp.lean (reference)",
-        "classification of a disagreement: the program is re-run on the real interpreter with one root cause repaired in its text (explicit parentheses, floor-mod helper, copying helper, non-constant literal) or, for +=, with python3 given the rebinding form",
+        "classification of a disagreement: the program is re-run on the real interpreter with one root cause repaired in its text (explicit parentheses, floor-mod / floor-div helpers, copying helper, non-constant literal) or, for +=, with python3 given the rebinding form",
     ],
     "assumptions": [
         "documented subset: integers (64-bit range), strings, lists, dicts with string keys, functions, if/for, comprehensions, the builtins listed in the statement; no floats (true division '/' is compared with the model only)",
         "comparison chaining (a < b < c) is a Python form the BUILD grammar does not have and is not generated",
         "programs on which python3 raises are outside the subset; programs on which asp raises are not covered by the statement",
-        "integers beyond 2^53 flowing through // (float64 detour) are outside the model",
+        "float64 conversion of NaN/Inf/out-of-range values is the amd64 one (-2^63); only relevant for the old // code path (mutation runs)",
         "string % formatting, format(), f-strings, str() of containers, sorted(key=), non-ASCII upper/lower/slices: direct oracle only where generated, not modelled",
     ],
 }
@@ -50,6 +55,8 @@ Dry-runs on a scratch copy (VERIF_REPO=/var/tmp/mC16, ./check C16 quick), all co
  M9  objects.go  pyDict.Keys(): sort dropped                   RED  rendered dict order / d.keys() differ from python
  M10 objects.go  pyInt <=  ->  <                               RED  concrete program (g5 false vs true)
  M7  interpreter.go rename local nobj -> rhs in interpretOps   GREEN (harmless)
- M8  builtins.go sorted: l = l[:] -> slices.Clone(l)  (a fix)  RED  as designed: the witness theorem C16_witness_sorted_in_place no longer
-                                                                   checks and the known finding is no longer reproduced; needs the check updated with the fix
+After the three repairs in /repo (fix: commits), the re-introducing mutations:
+ R1  objects.go  floorMod(i, o) -> i % o                       see MUTATIONS-AFTER-FIX below
+ R2  objects.go  floorDiv(i, o) -> float64 detour
+ R3  builtins.go sorted/reversed: clone -> l[:]
 """
